@@ -101,9 +101,18 @@ func goldenCheck(dir string) *Outcome {
 					fail("%s (%s): panic while reading a golden file: %v", g.File, g.What, r)
 				}
 			}()
-			db, err := bolt.Open(path, 0600, nil)
+			// an explicit page size that is not the file's must not matter: the file says what it uses
+			other := 4096
+			if g.PageSize == 4096 {
+				other = 16384
+			}
+			var opts *bolt.Options
+			if out.Evals%2 == 0 {
+				opts = &bolt.Options{PageSize: other}
+			}
+			db, err := bolt.Open(path, 0600, opts)
 			if err != nil {
-				fail("%s (%s): Open: %v", g.File, g.What, err)
+				fail("%s (%s): Open(options %v): %v", g.File, g.What, opts, err)
 				return
 			}
 			defer db.Close()
